@@ -229,6 +229,11 @@ pub fn abs_att(
     let expiration = u32::from(MaybeCheckedTransaction::Transaction(tx.clone()).expiration()) as u64;
     let basic = tx.clone().into_checked_basic(BlockHeight::new(height), &params);
     let basic_ok = basic.is_ok();
+    if std::env::var_os("HEXEC_DEBUG").is_some() {
+        if let Err(e) = &basic {
+            eprintln!("basic check failed: {e:?}");
+        }
+    }
     let sig_ok = match tx.clone().into_checked_basic(BlockHeight::new(0), &params) {
         Ok(c) => c.check_signatures(&chain_id).is_ok(),
         // not checkable at height 0 (maturity): judge at the current height
